@@ -74,8 +74,14 @@ pub fn scenario(acc: &mut Acc, seed: u64, index: u64, tier: Tier) {
     let s = mix(seed, TAG, index);
     let mut rng = Rng::new(s);
     let fail_pct = if rng.chance(1, 3) { 60 } else { 0 };
+    let directed = crate::directed::all();
     let prog = gen_program::generate(rng.next_u64(), true, fail_pct);
-    let src = prog.src.as_str();
+    let src = if (index as usize) < directed.len() {
+        acc.count("directed_programs", 1);
+        directed[index as usize].1.as_str()
+    } else {
+        prog.src.as_str()
+    };
     acc.count("programs", 1);
 
     // fault-free reference run (shipped schedule), full ledger audit
